@@ -51,8 +51,9 @@ EXTRA = [1e16, 1.7976931348623157e308, 2.2250738585072014e-308, 1234567890123456
 WRITERS = ['to_tsv', 'direct_io', 'str', 'convert_h5in', 'convert_jsonin']
 CHEAP_WRITERS = WRITERS[:3]
 READERS = ['lines', 'lines_nl', 'lines_blank_end', 'stringio', 'stringio_blank_end', 'file_handle', 'load_path',
-           'load_gz', 'parse_handle', 'convert_hdf5', 'convert_json']
-CHEAP_READERS = READERS[:9]
+           'load_gz', 'parse_handle', 'lines_twice', 'lines_nl_mdparse', 'load_gz_noext',
+           'convert_hdf5', 'convert_json']
+CHEAP_READERS = READERS[:12]
 
 
 # ------------------------------------------------------------------------- id styles
@@ -530,6 +531,31 @@ def check(case, acc, tmp):
                 elif rd == 'lines_nl':
                     r = Table.from_tsv(s.splitlines(True), None, None, inv)
                     processed = True
+                elif rd == 'lines_twice':
+                    # the caller's list of lines is an input: it is left as it was and can be parsed again
+                    L = s.splitlines()
+                    keep = list(L)
+                    Table.from_tsv(L, None, None, inv)
+                    if L != keep:
+                        acc.violation('reader-modified-input:lines', 'from_tsv changed the list of lines it was given '
+                                      '(%d lines before, %d after)' % (len(keep), len(L)),
+                                      dict(case, writers=[w], readers=[rd]))
+                        continue
+                    r = Table.from_tsv(L, None, None, inv)
+                    processed = True
+                elif rd == 'lines_nl_mdparse':
+                    # the inverse function handed over as the parser's md_parse keyword, lines with their terminators
+                    r = Table.from_tsv(s.splitlines(True), None, None, lambda x: x, md_parse=inv)
+                    processed = True
+                elif rd == 'load_gz_noext':
+                    # gzip content under a name that does not end in .gz
+                    gz2 = base + '.tsv.gzipped'
+                    with gzip.open(gz2, 'wt', encoding='utf-8') as fh:
+                        fh.write(s)
+                    try:
+                        r = load_table(gz2)
+                    finally:
+                        rm(gz2)
                 elif rd == 'lines_blank_end':
                     # what (text + '\n').split('\n') gives: a trailing empty string
                     r = Table.from_tsv(s.splitlines() + [''], None, None, inv)
